@@ -678,6 +678,7 @@ impl UntypedStmt {
                         }
                         let pattern =
                             pattern.type_check(env, fns, defs, Some(binding.ty.clone()))?;
+                        check_irrefutable(&pattern, &binding.ty, defs, meta)?;
                         Ok(Stmt::new(StmtEnum::Let(pattern, ty.clone(), binding), meta))
                     }
                     Err(mut errors) => {
@@ -885,7 +886,8 @@ impl UntypedStmt {
                     let elem_ty = Type::Tuple(vec![elem_ty_a, elem_ty_b]);
                     let mut body_typed = Vec::with_capacity(body.len());
                     env.push();
-                    let pattern = pattern.type_check(env, fns, defs, Some(elem_ty))?;
+                    let pattern = pattern.type_check(env, fns, defs, Some(elem_ty.clone()))?;
+                    check_irrefutable(&pattern, &elem_ty, defs, meta)?;
                     for stmt in body {
                         body_typed.push(stmt.type_check(top_level_defs, env, fns, defs)?);
                     }
@@ -900,7 +902,8 @@ impl UntypedStmt {
                     let elem_ty = expect_array_type(&binding.ty, meta)?;
                     let mut body_typed = Vec::with_capacity(body.len());
                     env.push();
-                    let pattern = pattern.type_check(env, fns, defs, Some(elem_ty))?;
+                    let pattern = pattern.type_check(env, fns, defs, Some(elem_ty.clone()))?;
+                    check_irrefutable(&pattern, &elem_ty, defs, meta)?;
                     for stmt in body {
                         body_typed.push(stmt.type_check(top_level_defs, env, fns, defs)?);
                     }
@@ -1871,6 +1874,16 @@ fn join_array_size(a: &Type, b: &Type, meta: MetaInfo) -> Result<ConstExpr, Type
 // Implements the algorithm described at
 // https://doc.rust-lang.org/nightly/nightly-rustc/rustc_mir_build/thir/pattern/usefulness/index.html
 // (which implements the paper http://moscova.inria.fr/~maranget/papers/warn/index.html)
+/// Patterns in `let` statements and `for` loops must match every value of their type.
+fn check_irrefutable(
+    pattern: &TypedPattern,
+    ty: &Type,
+    defs: &Defs,
+    meta: MetaInfo,
+) -> Result<(), TypeErrors> {
+    check_exhaustiveness(&[pattern], ty, defs, meta).map_err(|e| vec![Some(e)])
+}
+
 fn check_exhaustiveness(
     patterns: &[&TypedPattern],
     ty: &Type,
